@@ -226,8 +226,8 @@ impl Property for C17 {
 
     fn cases(&self, tier: Tier) -> u64 {
         match tier {
-            Tier::Quick => 100_000,
-            Tier::Thorough => 3_000_000,
+            Tier::Quick => 400_000,
+            Tier::Thorough => 6_000_000,
         }
     }
 
@@ -243,7 +243,7 @@ impl Property for C17 {
         let mut columns: Vec<String> = Vec::new();
         let mut kinds = Vec::new();
         for i in 0..ncols {
-            let mut name = if lone_input { "input".to_string() } else { t.pick(&NAMES[..9]).to_string() };
+            let mut name = if lone_input { "input".to_string() } else { t.pick(&NAMES).to_string() };
             if columns.contains(&name) {
                 name = format!("{}{}", name, i);
             }
